@@ -295,6 +295,14 @@ pub fn judge(ctx: &mut Ctx, r: &PortableRegistry, base: &SDesc, rules: &[Rule], 
     tally(&ev1, &mut ctx.res.counters);
     let (g0, g1) = match (g0, g1) {
         (Ok(a), Ok(b)) => (a, b),
+        (Ok(_), Err(e)) if e.starts_with("settings-refused:") => {
+            ctx.violation(
+                "C07:valid-rule-refused",
+                format!("the rule set {:?} is valid (registered via {}) but the settings API refused it: {e}", rules.iter().map(|r| format!("{} => {}", r.from, r.to)).collect::<Vec<_>>(), ["insert", "extend", "insert_if_not_exists"][with.register_via as usize]),
+                replay(),
+            );
+            return false;
+        }
         (a, b) => {
             ctx.count(&format!("generation[{}|{}]", a.err().unwrap_or("ok".into()), b.err().unwrap_or("ok".into())), 1);
             return false;
